@@ -143,6 +143,9 @@ impl<T: RealNumber + ScalarOperand> BaseVector<T> for ArrayBase<OwnedRepr<T>, Ix
     }
 
     fn approximate_eq(&self, other: &Self, error: T) -> bool {
+        if self.shape() != other.shape() {
+            return false;
+        }
         (self - other).iter().all(|v| v.abs() <= error)
     }
 
@@ -273,6 +276,9 @@ impl<T: RealNumber + ScalarOperand + AddAssign + SubAssign + MulAssign + DivAssi
     }
 
     fn approximate_eq(&self, other: &Self, error: T) -> bool {
+        if self.shape() != other.shape() {
+            return false;
+        }
         (self - other).iter().all(|v| v.abs() <= error)
     }
 
